@@ -47,7 +47,9 @@ def suite_file_seq(seed, tier):
             for j, n in enumerate(sizes):
                 A = np.arange(tot * cols, (tot + n) * cols, dtype=np.int64).reshape(n, cols) % 251
                 A = A.astype(np.uint8)
-                p = Path(tmp) / f"c{k}-{j}.npy"
+                # (the same few paths are rewritten from case to case: what counts is the file as it is
+                # on disk now, not as it was when the path was first seen)
+                p = Path(tmp) / f"part-{j}.npy"
                 np.save(p, A)
                 paths.append(p)
                 files.append(A.tolist())
